@@ -897,6 +897,12 @@ def _read_header_batch(
     except RpcError:
         _drain_stream(reader)
         raise
+    except Exception:
+        # The caller's on_log callback raised: still leave the transport at the
+        # end of the header stream (see _read_unary_response).
+        with contextlib.suppress(Exception):
+            _drain_stream(reader)
+        raise
     _drain_stream(reader)
     return resolve_external_location(batch, cm, external_config, on_log, ipc_validation)
 
@@ -1040,6 +1046,13 @@ def _read_unary_response(
         batch = _read_batch_with_log_check(reader, on_log, external_config, shm=shm)
     except RpcError:
         _drain_stream(reader)
+        raise
+    except Exception:
+        # Not a server error: typically the caller's on_log callback raised.  The
+        # rest of the response is still on the transport; left there, the next call
+        # on this connection would read it as its own reply.
+        with contextlib.suppress(Exception):
+            _drain_stream(reader)
         raise
     try:
         _drain_stream(reader)
